@@ -45,13 +45,17 @@ def spec_from_case(case):
     return spec
 
 
-def check_spec(spec, kind="mcfs", only=None, ignore=(), open_kw=None, attitude_plus_days=0, files=None, resolved=None):
-    """-> dict(ok, failures [{sig, detail}], n_leaves, unverified, error)"""
+def check_spec(spec, kind="mcfs", only=None, ignore=(), open_kw=None, attitude_plus_days=0, files=None, resolved=None, pre=()):
+    """-> dict(ok, failures [{sig, detail}], n_leaves, unverified, error)
+
+    pre: option dicts of opens performed (and discarded) on the same product before the compared one"""
     if files is None:
         files, resolved = synth.build(spec)
     exp = refmodel.expected(spec, resolved, attitude_plus_days=attitude_plus_days)
     with harness.Product(files, kind) as prod:
         try:
+            for kw in pre:
+                prod.open(**kw)
             tree = prod.open(**(open_kw or {}))
             act = refmodel.semantic(tree)
         except Exception as e:
